@@ -1,5 +1,5 @@
 CONSTANTS
-  BodyLens = {0, 2, 4, 12, 24}
+  BodyLens = {0, 4, 24}
   Tails = {0, 20}
   Contexts = {"none", "unk0"}
   Derived = TRUE
